@@ -13,6 +13,9 @@ CLAIMS = {
  'C10': ('model_checking',
    "TLA+ spec Armor (writer machine base64->64-column lines->sink with nondeterministic write chunking and one sink fault; Shape(n); line-token reader with the tolerant forms; Expect matrix) model-checked by TLC for all n<=120 (thorough 200); TLC emits Shape(n) for every n<=2048 (thorough 4096 + sizes to 1 MiB) and the full variant x CRC x crc_check matrix with expected outcomes; the harness armors real data (types x headers x checksum x chunkings), deframes with an independent parser + independent CRC-24/base64, dearmors under read schedules, injects a sink fault at every call, and runs every variant document (core variants swept over every length).",
    'DESIGN.md 5/C10', TECH),
+ 'C17': ('model_checking',
+   "TLA+ spec Framing (length codecs, Legal(), the crate's partial-writer policy, PacketBodyReader machine with truncating source) model-checked by TLC over every encodable framing of the bound (2-3 partial chunks from exponents {0,8,9,10,13} + boundary final lengths, 8 tags, both header formats, indeterminate, chains without terminator) x supplied-octet counts, codec round trip for all n<=20000 (thorough 70000); TLC emits every framing with its verdict, the writer chunking and the header octets for boundary lengths; the harness frames valid bodies with an independent framer and compares PacketParser / Message results with the canonical framing (sentinel packet must follow), re-serialises every parsed packet and deframes library-written streams independently.",
+   'DESIGN.md 5/C17', TECH),
 }
 checks = []
 for p in props:
